@@ -24,6 +24,15 @@ theorem flux_def (π q : Vec) (T : Mat) (i j : Nat) :
 
 example : reactiveFlux π3 q3 T3 0 1 = 1/16 ∧ reactiveFlux π3 q3 T3 1 0 = 0 := by decide +kernel
 
+/-- About the PRE-FIX reading only (the finding `reactive-fluxes-np-matrix` is closed: /repo now converts with
+`np.asarray`, and np.matrix input is an ordinary dense container of the correspondence check): the matrix-product
+reading `reactiveFluxNpMatrix` of the dense expression is NOT the defined flux — witness: the 3-state chain `T3`,
+source 0, sink 2.  It documents why the conversion must stay. -/
+theorem flux_def_npmatrix_prefix_counterexample :
+    ¬ (∀ i, i < 3 → ∀ j, j < 3 → i ≠ j →
+        reactiveFluxNpMatrix 3 π3 q3 T3 i j = π3 i * reverseCommittors q3 i * T3 i j * q3 j) := by
+  decide +kernel
+
 /-- Net flux is the positive part of `f − fᵀ`. -/
 theorem net_def (f : Mat) (i j : Nat) :
     netFlux f i j = max (f i j - f j i) 0 ∧ 0 ≤ netFlux f i j :=
